@@ -11,6 +11,18 @@ CHECKS = {
  "C08": ("vsched-inproc","same runs; isolated (peers frozen) ops step bound, no wait ops, no panics","§5 C08",
          "Exploration: every isolated operation is bounded in its own atomic steps; unbounded loops show as step-bound overruns."),
 }
+CHECKS.update({
+ "C01": ("vsched-fork","generated register/unregister/deliver programs x byte schedules x nested deliveries (one forked child per case) vs quiescence, drop-once-by-remover and snapshot-epoch invariants","§5 C01",
+         "Exploration: thousands of generated multi-threaded histories per run, each with a harness-chosen interleaving at the granularity of every shared-memory access of the registry; the oracle is an invariant over the recorded history. No absence claim."),
+ "C02": ("vsched-fork","same generator; the ordered action list of every delivery must equal the list of one registry state current during it (state sequence reconstructed from publish events)","§5 C02",
+         "Exploration against a reference model of the registry state sequence."),
+ "C03": ("vsched-fork","same generator with isolated deliveries (peers frozen); operation kinds, own step count, allocator wrapper, abort detection","§5 C03",
+         "Exploration: each delivery's own operations are classified; any lock/wait/alloc or unbounded loop is a violation."),
+ "C04": ("vsched-fork","same generator with real pre-existing dispositions installed via sigaction; foreign-handler call log (once, first, same arguments)","§5 C04",
+         "Exploration over arrival instants relative to first registrations, including the take-over window."),
+ "C18": ("vsched-fork","same generator with panicking mutators + fair completion (no deadlock / step bound) + directed sustained-overlap schedules (32 rounds, parameters generated)","§5 C18",
+         "Exploration; liveness decided through finite surrogates (fair completion under a step bound, K-round periodic witness)."),
+})
 NA = []
 ALL = ["C%02d"%i for i in range(1,19)]
 checks=[]
@@ -32,6 +44,7 @@ m={
  "setup_cmd":"cd /verif/harness && CARGO_NET_OFFLINE=true cargo build --release --offline",
  "hooks":{"guard":"sighook_verif","enable":"RUSTFLAGS=\"--cfg sighook_verif\" (set in /verif/harness/.cargo/config.toml)","baseline_off_cmd":"cd /repo && cargo test --workspace --no-fail-fast --offline","source_commits":hook_ids,"add_only":True},
  "engines":[
+   {"name":"vsched-fork","path":"/verif/harness/src/reg.rs","serves_properties":["C01","C02","C03","C04","C18"],"kind_free_text":"the same executor, one forked child per case; deliveries are direct calls of the library's real dispatcher placed by the schedule (own thread or nested on the interrupted thread); real sigaction dispositions"},
    {"name":"vsched-inproc","path":"/verif/harness/src/vsched.rs","serves_properties":["C06","C07","C08"],"kind_free_text":"schedule-owning executor: token-passing OS threads, byte-encoded schedules, C11-subset memory model with vector clocks, nested operations; proptest generators and shrinking"},
  ],
  "checks":checks,
